@@ -308,6 +308,9 @@ impl<'a, W: World> Ex<'a, W> {
                             ("ID", Ans::Int(i)) => Some(J::String(i.to_string())),
                             ("Boolean", Ans::Bool(b)) => Some(J::Bool(*b)),
                             ("Int" | "Float" | "String" | "ID" | "Boolean", _) => None,
+                            // the harnesses' validated custom scalar: even integers only
+                            ("Even", Ans::Int(i)) if i % 2 == 0 => Some(J::from(*i)),
+                            ("Even", _) => None,
                             // custom scalar: carried as is
                             (_, Ans::Int(i)) => Some(J::from(*i)),
                             (_, Ans::Str(s)) => Some(J::String(s.clone())),
@@ -437,6 +440,7 @@ impl TableWorld {
             Type::Named(n) => match s.ty(n).map(|t| &t.kind) {
                 Some(Kind::Scalar) => match n.as_str() {
                     "Int" => Ans::Int(1),
+                    "Even" => Ans::Int(2),
                     "Float" => Ans::Float(1.5),
                     "Boolean" => Ans::Bool(true),
                     _ => Ans::Str("x".into()),
